@@ -2,7 +2,8 @@
    Only statements here; the model is Model/Keys.v, the proofs are in Proofs/Keys*.v.
    A key is the list of its dot-separated components. *)
 From Coq Require Import ZArith List Bool String.
-From PyxelV Require Import Model.Keys Proofs.Keys Proofs.KeysLit.
+From PyxelV Require Import Model.Keys Model.KeysWorld Proofs.Keys Proofs.KeysLit Proofs.KeysWorld.
+From PyxelGen Require Import Gen_C08.
 Import ListNotations.
 Open Scope string_scope.
 Open Scope list_scope.
@@ -112,6 +113,41 @@ Example C08_frame_nonvacuous :
   targets_setting (ex_proc true) k_rwo = false /\ targets_setting (ex_proc true) ["detector"] = false /\
   (exists t', set (ex_proc true) k_level (VInt 9) = Ok t' /\ getv t' k_row = Ok (VInt 3)).
 Proof. repeat split; try (eexists; split; vm_compute; reflexivity). Qed.
+
+(* ===================================================================================== derived processors *)
+
+(* Sweeps, calibration and Processor.replace assign on a COPY of the processor they are given.  Under the copy policy
+   the source states today (src_copy_policy / src_copy_sites are regenerated from Processor.__deepcopy__,
+   ModelGroup.__deepcopy__, Processor.replace, create_new_processor, build_processors and update_processor on every
+   run) no object is shared between a processor and its copies, and whatever is assigned through whatever key on a
+   copy — successfully or not — the processor it was derived from keeps its whole settings tree: every setting, every
+   disabled model, every nested argument, every detector sub-object.  The copy itself is a processor with the same
+   tree, so C08_frame_partial & co. describe what happens to it. *)
+Theorem C08_derived_isolation :
+  forall via t k raw,
+    alias_paths src_copy_policy (site_mode src_copy_sites via) t = [] /\
+    orig_after src_copy_policy (site_mode src_copy_sites via) t k raw = t.
+Proof. intros. apply derived_isolated; vm_compute; reflexivity. Qed.
+Print Assumptions C08_derived_isolation.
+
+(* what is at stake: as soon as a copy shares the object in which the walk of the key ends, the source sees the assignment *)
+Theorem C08_shared_object_leaks :
+  forall pol site t k raw t',
+    shares_landing (alias_paths pol site t) k = true -> pset t k raw = Ok t' -> orig_after pol site t k raw = t'.
+Proof. exact shared_landing_leaks. Qed.
+Print Assumptions C08_shared_object_leaks.
+
+(* non-vacuity: a policy that hands the models of a group over as they are shares exactly the models, and an
+   assignment on the copy's `enabled` flag then flips the source's flag; the policy of the source shares nothing *)
+Example C08_derived_nonvacuous :
+  let leaky := mkCPolicy [("detector", Deep); ("pipeline", Deep)] [("models", Alias)] in
+  alias_paths leaky Deep (ex_proc false) = [["pipeline"; "photon_collection"; "illumination"]] /\
+  getv (orig_after leaky Deep (ex_proc false) ["pipeline"; "photon_collection"; "illumination"; "enabled"] (VBool true))
+       ["pipeline"; "photon_collection"; "illumination"; "enabled"] = Ok (VBool true) /\
+  orig_after leaky Deep (ex_proc false) k_row (VInt 9) = ex_proc false /\
+  alias_paths src_copy_policy (site_mode src_copy_sites "replace") (ex_proc false) = [] /\
+  (exists t', pset (ex_proc false) ["pipeline"; "photon_collection"; "illumination"; "enabled"] (VBool true) = Ok t' /\ t' <> ex_proc false).
+Proof. repeat split; try (vm_compute; reflexivity). eexists; split; [vm_compute; reflexivity|]. vm_compute. discriminate. Qed.
 
 (* ===================================================================================== unresolved keys *)
 
